@@ -96,6 +96,21 @@ def work(ctx, tier):
                         sv[j] = "none"
                 c["strat_values"] = [0.5 if (j == 0 and isinstance(x, (int, float)) and x == 0) else x for j, x in enumerate(sv)]
             ctx.inc("scenarios_with_a_strategy_answering_none")
+            if k % 12 == 2:
+                # ... directed: a first delay that takes most of the deadline, then None: whatever the library makes of None, it is not
+                # "the previous delay once more"
+                D = rng.choice([1.0, 2.0, 4.0])
+                sc["cfg"].update(deadline_s=D, max_attempts=max(3, sc["cfg"]["max_attempts"]), budget=None, per_class={}, max_unknown=None, default_strategy=True, class_strategies=[], legacy=[])
+                sc["cfg"].pop("omit_limits", None)
+                for c in sc["calls"]:
+                    n_ = max(3, len(c["outcomes"]))
+                    c["outcomes"] = [["exc", "TRANSIENT", None] for _ in range(n_)]
+                    c["strat_values"] = [0.625 * D] + ["none"] * (n_ - 1)
+                    c["durations"] = [0.0] * n_
+                    c["overshoot"] = [0.0] * n_
+                    c["handler"] = None
+                    c["abort_at"] = None
+                sc["place"]["handler"] = "none"
         if k % 6 == 4:
             # the abort predicate's first evaluation - before attempt 1 - takes time: the envelope is measured from the start of the call
             sc["poll"] = True
